@@ -60,6 +60,13 @@ def scenarios(tier, seed):
                 cfg = buf_cfg(20, cold_cap, hr, cr, [s1, s2])
                 out.append((cfg, [{"op": "StoreHot", "o": "a"}, {"op": "StoreHot", "o": "b"}, {"op": "H2C"}]
                             + [tick] * n + [{"op": "H2C"}] + [tick] * n))
+    # a move while another observation is still being ingested
+    for s1, s2 in ((3, 5), (6, 4), (2, 6)):
+        for hr, cr in ((3, 3), (3, 1), (2, 3)):
+            cfg = buf_cfg(20, 12, hr, cr, [s1, s2])
+            for lead in (0, 1, 2):
+                out.append((cfg, [{"op": "StoreHot", "o": "a"}, {"op": "StartIngest", "o": "b"}] + [tick] * lead
+                            + [{"op": "H2C"}] + [tick] * (max(s1, s2) + 3)))
     rng = random.Random(f"buf-{seed}")
     for _ in range(40 if tier == "quick" else 600):
         s1, s2 = rng.randint(1, 6), rng.randint(1, 6)
@@ -166,6 +173,13 @@ def run_history(args):
                         o.status = RunStatus.FINISHED
                         tier.current_capacity -= size
                         tier.observations["stored"].append(o)
+                elif op["op"] == "StartIngest":
+                    # an observation starts streaming into the hot tier (as
+                    # Scheduler.allocate_ingest does: RUNNING, then the stream)
+                    o = byname[op["o"]]
+                    o.status = RunStatus.RUNNING
+                    o.ast = env.now
+                    env.process(buf.ingest_data_stream(o))
                 elif op["op"] == "H2C":
                     env.process(buf.move_hot_to_cold(0))
                 elif op["op"] == "C2H":
